@@ -155,6 +155,11 @@ package platform
 //@     && ydepth(yitem(levels, k)) >= 0
 //@     && (ytext(yget(yitem(levels, k), "previous-priv")) == "" ? ydepth(yitem(levels, k)) == 0
 //@          : ykind(yget(levels, ytext(yget(yitem(levels, k), "previous-priv")))) == 6 && ydepth(yitem(levels, k)) == ydepth(yget(levels, ytext(yget(yitem(levels, k), "previous-priv")))) + 1)
+// a level that sends a secret waits for a prompt that is anchored to the start of a line: an unanchored one (": ") is met by
+// any line with a colon in it, and the secret is then typed - and echoed into the logs - where nobody asked for it (F23)
+//@ spec secretPromptWF(levels int, k int) bool :=
+//@        (ykind(yget(yitem(levels, k), "escalate-auth")) == 4 && ybool(yget(yitem(levels, k), "escalate-auth"))) ==> (ykind(yget(yitem(levels, k), "escalate-prompt")) == 1 && yanch(yget(yitem(levels, k), "escalate-prompt")))
+//@ spec secretPromptsWF(d int, v int) bool := ytext(sect(d, v, "driver-type")) == "network" ==> (forall k int :: 0 <= k && k < ylen(sect(d, v, "privilege-levels")) ==> secretPromptWF(sect(d, v, "privilege-levels"), k))
 //@ spec levelsWF(levels int) bool :=
 //@        ykind(levels) == 6 && ylen(levels) > 0
 //@     && (forall k int :: 0 <= k && k < ylen(levels) ==> levelWF(levels, k))
@@ -167,6 +172,7 @@ package platform
 //@   ensures #has-a-default-section ykind(doc) == 6 && ykind(def) == 6 && (ykind(vars) == 0 || ykind(vars) == 6)
 //@   ensures #driver-type-is-generic-or-network driverTypeWF(def, 0) && (ykind(vars) == 6 ==> forall k int :: 0 <= k && k < ylen(vars) ==> driverTypeWF(def, yitem(vars, k)))
 //@   ensures #hook-steps-are-ones-the-hook-executes hooksWF(def, 0) && (ykind(vars) == 6 ==> forall k int :: 0 <= k && k < ylen(vars) ==> hooksWF(def, yitem(vars, k)))
+//@   ensures [C17 C11 C12] #a-level-that-sends-a-secret-waits-for-a-prompt-anchored-to-a-line secretPromptsWF(def, 0) && (ykind(vars) == 6 ==> forall k int :: 0 <= k && k < ylen(vars) ==> secretPromptsWF(def, yitem(vars, k)))
 //@   ensures #privilege-levels-form-one-tree-and-the-default-level-exists networkWF(def, 0) && (ykind(vars) == 6 ==> forall k int :: 0 <= k && k < ylen(vars) ==> networkWF(def, yitem(vars, k)))
 
 // ---- C17: every load of a name yields objects of its own (what a name loads does not depend on earlier loads) --------------
